@@ -172,10 +172,34 @@ def unusable_histories():
     return out
 
 
+# metadata VALUES that name an encoding: they are data; a diff never
+# inherits an encoding from anywhere, least of all from its sibling metadata
+META_HINTS = [{'mimetype': 'text/plain; charset=utf-16'},
+              {'mimetype': {'old': 'text/plain', 'new': 'text/x-c; '
+                                                        'charset=utf-32'}},
+              {'encoding': 'utf-16'}, {'charset': 'utf-32'},
+              {'path': 'f', 'line_endings': 'dos', 'length': 1,
+               'indent': 7, 'type': 'binary', 'format': 'yaml',
+               'version': '2.0', 'mimetype': 'text/markdown;charset=cp037'}]
+
+
+def hint_histories():
+    out = []
+    for hint in META_HINTS:
+        out.append([['meta', hint, None], ['change', None],
+                    ['meta', hint, None],
+                    ['preamble', 'after é\n', None, 4, None, None][:0] or
+                    ['file', None], ['meta', hint, None],
+                    ['diff', b'-plain ascii\n+diff\n', None, None, None],
+                    ['file', None], ['meta', hint, 'latin-1'],
+                    ['diff', b'x\r\ny\r\n', None, None, None]])
+    return out
+
+
 def run_unusable_unit(tier):
     acc = Acc()
     for root in ('utf-8', 'utf-16'):
-        for calls in unusable_histories():
+        for calls in unusable_histories() + hint_histories():
             viols, ex = check_history(calls, root)
             acc.evals += 1
             acc.states += 1
@@ -183,12 +207,12 @@ def run_unusable_unit(tier):
             acc.validated += 1
             acc.nontrivial += 1
             for k_, msg in viols:
-                acc.violation(k_ + ':unusable-container-encoding',
+                acc.violation(k_ + ':unusable-encoding-or-metadata-hint',
                               '%s\nhistory %r' % (str(msg)[:600],
                                                   [c[:3] for c in calls]),
                               {'kind': 'history', 'root': root,
                                'calls': to_jsonable(calls),
-                               'suffix': ':unusable-container-encoding'})
+                               'suffix': ':unusable-encoding-or-metadata-hint'})
             acc.outcome('ok' if not viols else 'violation')
     acc.sample({'unusable_container_encodings': UNUSABLE}, 1)
     return acc
